@@ -184,6 +184,8 @@ def replay(cex):
     if cex.get("kind") == "w":
         from engine import wrun
         return wrun.replay_generic(cex)
+    if cex.get("kind") == "hll-tables":
+        return replay_tables(cex)
     return replay_arrays(cex)
 
 
@@ -215,18 +217,51 @@ def replay_arrays(cex):
     return {"reproduced": bool(fails), "how": "HyperLogLog(p).registers[:] assigned (one sketch reused per precision), query() vs independent numpy rendering of the documented HLL++ estimator", "arrays_tried": tried, "failed_clauses": fails}
 
 
-def table_facts():
+def ob_tables(timeout_ms):
+    """the shipped tables as solver constants: every raw-estimate row strictly increasing (np.interp's precondition), and
+    each table begins where the linear-counting threshold ends (bias-corrected first knot == threshold, 1% tolerance)"""
+    from sketchnu import hll_constants as K
+    stats = common.Stats()
+    rows = int(K.raw_estimate.shape[0])
+    pI, iI = z3.Int("p_row"), z3.Int("i")
+    R = z3.Function("raw", z3.IntSort(), z3.IntSort(), z3.RealSort())
+    B0 = z3.Function("bias0", z3.IntSort(), z3.RealSort())
+    T = z3.Function("thr", z3.IntSort(), z3.RealSort())
+    n = int(K.raw_estimate.shape[1])
+    defs = []
+    for r in range(rows):
+        defs.append(T(r) == z3.RealVal(repr(float(K.sub_algorithm_threshold[r]))))
+        defs.append(B0(r) == z3.RealVal(repr(float(K.bias_data[r][0]))))
+        for i in range(n):
+            defs.append(R(r, i) == z3.RealVal(repr(float(K.raw_estimate[r][i]))))
+    dom = [pI >= 0, pI < rows]
+    qs = [("raw-estimate row not strictly increasing", dom + [iI >= 0, iI < n - 1, R(pI, iI + 1) <= R(pI, iI)]),
+          ("table does not begin at the threshold", dom + [z3.Or(R(pI, 0) - B0(pI) - T(pI) > T(pI) / 100, T(pI) - (R(pI, 0) - B0(pI)) > T(pI) / 100)])]
+    for name, q in qs:
+        r, m = common.z3check(defs + q, timeout_ms, stats, label="shipped tables: " + name)
+        if r == "unsat":
+            continue
+        if r != "sat":
+            return {"status": "unknown", "stats": stats.as_dict(), "note": f"{r} on {name}"}
+        row = m.eval(pI, model_completion=True).as_long()
+        cex = {"kind": "hll-tables", "clause": name, "row": row, "p": row + 7, "index": m.eval(iI, model_completion=True).as_long()}
+        return {"status": "cex", "stats": stats.as_dict(), "cex": cex, "replay": replay(cex), "finding_key": "hll-tables:" + name[:20]}
+    return {"status": "proved", "stats": stats.as_dict(), "funcs": ["sketchnu.hll_constants (data)"]}
+
+
+def replay_tables(cex):
     from sketchnu import hll_constants as K
     import numpy as np
-    bad = []
-    for i in range(K.raw_estimate.shape[0]):
-        row = K.raw_estimate[i]
-        if not np.all(np.diff(row) > 0):
-            bad.append(f"raw_estimate row p={i + 7} is not strictly increasing")
-        if not (row[0] <= K.sub_algorithm_threshold[i] * 1.0 + 1e-9 or True):
-            bad.append("unreachable")
-    return {"rows": int(K.raw_estimate.shape[0]), "problems": bad,
-            "first_raw_vs_threshold": [[float(K.raw_estimate[i][0]), float(K.sub_algorithm_threshold[i])] for i in range(K.raw_estimate.shape[0])]}
+    r = cex["row"]
+    fails = []
+    if not np.all(np.diff(K.raw_estimate[r]) > 0):
+        i = int(np.nonzero(np.diff(K.raw_estimate[r]) <= 0)[0][0])
+        fails.append(f"raw_estimate[p={r + 7}][{i}:{i + 2}] = {K.raw_estimate[r][i]}, {K.raw_estimate[r][i + 1]}: not strictly increasing (np.interp is undefined on such a table)")
+    t = float(K.sub_algorithm_threshold[r])
+    first = float(K.raw_estimate[r][0] - K.bias_data[r][0])
+    if abs(first - t) > t / 100:
+        fails.append(f"p={r + 7}: the table's first knot corrects to {first}, the linear-counting threshold is {t}")
+    return {"reproduced": bool(fails), "how": "the arrays of the imported sketchnu.hll_constants module", "failed_clauses": fails}
 
 
 def validate_translator(seed, n):
@@ -261,6 +296,7 @@ def main():
         obs.append(common.Ob(f"_query == documented decision tree for all register arrays, m={m}", ob_structure, (m, tmo), hard_s=tmo / 1000 * 2 + 240, bounds={"m": m, "registers": "all values 0..64 per cell (symbolic)", "threshold, alpha": "symbolic"}))
         obs.append(common.Ob(f"empty sketch => exactly 0.0, m={m}", ob_empty, (m, tmo), hard_s=tmo / 1000 + 240, bounds={"m": m}))
     obs.append(common.Ob("witness: every leaf of the decision tree reachable", ob_witness, (16,), kind="witness", hard_s=600))
+    obs.append(common.Ob("shipped tables: raw estimates strictly increasing, tables begin where the thresholds end", ob_tables, (tmo,), hard_s=tmo / 1000 * 2 + 60, bounds={"rows": "all shipped precisions", "knots": "all"}))
     from engine import wrun
     wobs, wmeta = wrun.obligations("c17", tier)
     obs += wobs
@@ -268,7 +304,6 @@ def main():
     funcs = set()
     for r in results:
         funcs.update(r.get("funcs") or [])
-    tf = table_facts()
     val = validate_translator(common.get_seed(), 20 if tier == "quick" else 100)
     rc_extra = 0
     if val["n_mismatch"]:
@@ -282,11 +317,8 @@ def main():
                      "a structural counterexample is reported only after a register array reproducing a numeric disagreement with the independent reference is found on the real sketch"],
         outside=["accuracy of np.log / np.interp / 2.0**x", "register files larger than the listed m (the loops are uniform)", "float rounding (real-idealised); the replay compares numerically with tolerance 1e-9"],
         explanation="the estimator's branch structure and formulas decided for all register arrays against a reference tree under shared uninterpreted numerics",
-        extra_cov={"table_facts": tf}, validation=val,
+        validation=val,
         technique="symbolic execution of Numba typed IR + z3 (real-idealised: LRA/NRA + uninterpreted log/pow/interp, math-mode integers): result term == reference decision tree")
-    if tf["problems"] and rc == 0:
-        print("VIOLATION-CANDIDATE (table facts):", tf["problems"], file=sys.stderr)
-        rc = 2
     return rc or rc_extra
 
 
